@@ -18,7 +18,8 @@ RULE = ('Generated valid chains (3..24 blocks, constructive tx generator: inputs
         'a spend of an already-flushed output and an intermediate flush; classes counted: '
         'a large stratum with blocks of up to 300 extra transactions; '
         'collision-resolved DB spend, same-block spend chain, OP_RETURN on both sides of '
-        'activation, spend after history-only flush, zero value, duplicate scripts in a tx.')
+        'activation, spend after history-only flush, zero value, duplicate scripts in a tx.' 
+        'Meta-file stratum: a third of sync cases run with physical headers / tx-count / tx-hash files of 2.5 or exactly 2 records (node.META_SIZES), so flushes and reads cross file boundaries as they do beyond 200,000 blocks / 500,000 transactions.')
 ASSUMPTIONS = ['LevelDB batch atomicity', 'FakeDaemon models bitcoind (answers computed at response '
                'time)', 'chains are small: tx numbers < 2^16']
 BUDGET_S = {'quick': 120, 'thorough': 3000}
